@@ -52,6 +52,22 @@ def scenario(rng, kind):
             if x < p_loss + p_late + p_dup:
                 return [0.01, rng.choice([0.02, 0.25, 2.0])]
             return [0.01]
+        if kind == "chatter":
+            # replies are mostly lost while the spa keeps sending unsolicited partial updates: an attempt's
+            # timeout runs from its own transmission, whatever else arrives in the meantime
+            p_loss, p_late, p_dup = rng.choice([0.6, 0.85, 1.0]), 0.0, 0.0
+            period = rng.choice([0.13, 0.7, 1.9])
+            sim_struct = s.peer.sim.structure
+
+            def chat():
+                if sc.s.loop.is_closed() or getattr(sc, "_stop_chat", False):
+                    return
+                pos = rng.randrange(0, 1022)
+                data = bytes([rng.randrange(256), rng.randrange(256)])
+                sim_struct.replace_status_block_segment(pos, data)
+                s.inject(s.peer.push_changes(s.client_parms(), [(pos, data)]))
+                s.loop.call_later(period, chat)
+            s.loop.call_later(period, chat)
         if not kind.startswith("gate"):
             net.s2c = s2c
         n_calls = rng.choice([1, 2, 3, 5, 8])
@@ -83,6 +99,7 @@ def scenario(rng, kind):
             t0 = s.loop.time()
             while any(not t.done() for t in sc.tasks) and s.loop.time() - t0 < limit:
                 s.advance(0.5)
+        sc._stop_chat = True
         pending = [t.get_name() for t in sc.tasks if not t.done()]
         ev = merge(sc)
         return {"ev": ev, "kind": kind, "pending": pending, "ncalls": n_calls}
@@ -114,7 +131,7 @@ def run(ctx):
     logs = []
     n = 24 if ctx.quick else 400
     for i in range(n):
-        kind = "gate" if i % 8 == 7 else "gate-active" if i % 8 == 3 else "calls"
+        kind = "gate" if i % 8 == 7 else "gate-active" if i % 8 == 3 else "chatter" if i % 8 == 5 else "calls"
         logs.append(scenario(rng, kind))
     c = consts()
     verdicts, _ = tlc.validate("AsyncEngine_Trace", logs, "c06", CFG.format(**c), chunk=6, heap="2g", jobs=12)
